@@ -213,30 +213,51 @@ func runC18(c *Ctx) {
 	if vs := fs["GetClientCertificate"]; len(vs) == 1 {
 		if mc, ok := strip(vs[0]).(*ssa.MakeClosure); ok && strings.Contains(fnName(mc.Fn.(*ssa.Function)), "/certreload.") && strings.HasSuffix(fnName(mc.Fn.(*ssa.Function)), ".GetClientCertificate") && len(mc.Bindings) == 1 {
 			if ex, ok := mc.Bindings[0].(*ssa.Extract); ok {
-				if nc, ok := ex.Tuple.(*ssa.Call); ok && strings.HasSuffix(calleeName(nc), "certreload.NewCertReloader") {
+				nc, _ := ex.Tuple.(*ssa.Call)
+				rtc := tc // the function that builds the reloader
+				var outerErr ssa.Value
+				if nc != nil {
+					outerErr = extractOf(nc, 1)
+				}
+				// the reloader built by a helper that is handed the two paths and returns NewCertReloader's results as they are
+				if nc != nil && !strings.HasSuffix(calleeName(nc), "certreload.NewCertReloader") && ex.Index == 0 {
+					if h := nc.Call.StaticCallee(); h != nil && w.InRepo(h) && len(h.Blocks) > 0 && len(nc.Call.Args) == 2 && w.Expr(nc.Call.Args[0]) == "p0" && w.Expr(nc.Call.Args[1]) == "p1" {
+						if rets := liveReturns(h); len(rets) == 1 && len(rets[0].Results) == 2 {
+							e0, ok0 := rets[0].Results[0].(*ssa.Extract)
+							e1, ok1 := rets[0].Results[1].(*ssa.Extract)
+							if ok0 && ok1 && e0.Tuple == e1.Tuple && e0.Index == 0 && e1.Index == 1 {
+								if inner, isCall := e0.Tuple.(*ssa.Call); isCall && strings.HasSuffix(calleeName(inner), "certreload.NewCertReloader") {
+									c.Saw(h)
+									nc, rtc = inner, h
+								}
+							}
+						}
+					}
+				}
+				if nc != nil && strings.HasSuffix(calleeName(nc), "certreload.NewCertReloader") {
 					// the CertKeyGetter closure reads exactly certPath and keyPath
 					// the getter closure is the one installed in the reloader's configuration
 					var installed *ssa.Function
 					if ca, ok := strip(nc.Call.Args[0]).(*ssa.UnOp); ok {
 						if al, ok := ca.X.(*ssa.Alloc); ok {
-							for fld, vals := range FieldStores(tc, al) {
+							for fld, vals := range FieldStores(rtc, al) {
 								if fld == "CertKeyGetter" && len(vals) == 1 {
-									if gc, ok := w.canon(tc, vals[0]).(*ssa.MakeClosure); ok {
+									if gc, ok := w.canon(rtc, vals[0]).(*ssa.MakeClosure); ok {
 										installed = gc.Fn.(*ssa.Function)
 									}
 								}
 							}
 						}
 					}
-					w.Focus(tc)
+					w.Focus(rtc)
 					// a method value of a small record holding the two paths: the method, with the record's fields standing for
 					// what was stored into them here
 					fieldOf := map[string]string{}
 					if installed != nil && strings.HasPrefix(installed.Synthetic, "bound method wrapper") {
 						var rec *ssa.Alloc
-						for fld, vals := range FieldStores(tc, strip(nc.Call.Args[0]).(*ssa.UnOp).X.(*ssa.Alloc)) {
+						for fld, vals := range FieldStores(rtc, strip(nc.Call.Args[0]).(*ssa.UnOp).X.(*ssa.Alloc)) {
 							if fld == "CertKeyGetter" && len(vals) == 1 {
-								if gc, ok := w.canon(tc, vals[0]).(*ssa.MakeClosure); ok && len(gc.Bindings) == 1 {
+								if gc, ok := w.canon(rtc, vals[0]).(*ssa.MakeClosure); ok && len(gc.Bindings) == 1 {
 									if ld, isLd := strip(gc.Bindings[0]).(*ssa.UnOp); isLd {
 										rec, _ = ld.X.(*ssa.Alloc)
 									} else if al, isAl := strip(gc.Bindings[0]).(*ssa.Alloc); isAl {
@@ -252,12 +273,39 @@ func runC18(c *Ctx) {
 							}
 						}
 						if rec != nil && real != nil && !w.recordEscapes(rec, 0, map[ssa.Value]bool{}) {
-							for fld, vals := range FieldStores(tc, rec) {
+							for fld, vals := range FieldStores(rtc, rec) {
 								if len(vals) == 1 {
 									fieldOf["p0."+fld] = w.Expr(vals[0])
 								}
 							}
 							installed = real
+						}
+					}
+					// a getter closure that only hands the two paths to a reader function of the package: the reader
+					if installed != nil && len(callsTo(installed, "os.ReadFile")) == 0 && installed.Synthetic == "" {
+						var gc *ssa.Call
+						n := 0
+						for _, call := range callsIn(installed) {
+							if cv, isCall := call.(*ssa.Call); isCall {
+								if g := cv.Call.StaticCallee(); g != nil && w.InRepo(g) && len(g.Blocks) > 0 {
+									gc = cv
+									n++
+								}
+							}
+						}
+						if n == 1 && len(gc.Call.Args) == 2 && w.ExprIn(installed, gc.Call.Args[0]) == "p0" && w.ExprIn(installed, gc.Call.Args[1]) == "p1" {
+							handsBack := true
+							for _, r := range liveReturns(installed) {
+								for k, res := range r.Results {
+									if e, isEx := throughCell(strip(res)).(*ssa.Extract); !isEx || e.Tuple != ssa.Value(gc) || e.Index != k {
+										handsBack = false
+									}
+								}
+							}
+							if handsBack {
+								installed = gc.Call.StaticCallee()
+								c.Saw(installed)
+							}
 						}
 					}
 					for _, a := range []*ssa.Function{installed} {
@@ -291,7 +339,7 @@ func runC18(c *Ctx) {
 						}
 					}
 					f := w.Facts(tc)
-					isNil, known := f.KnownNil(cfg.Block(), extractOf(nc, 1))
+					isNil, known := f.KnownNil(cfg.Block(), outerErr)
 					c.Check(known && isNil, "R1.config", "TLSClientConfiguration|reloader error checked", w.Pos(nc.Pos()), "must-fact NewCertReloader err == nil", "the configuration is built although the client-certificate reloader failed")
 				}
 			}
